@@ -27,6 +27,7 @@ UNIVERSE = 28
 
 def setup_symbolic():
     shims.install([ap, common], ["range", "min", "max", "int"])
+    shims.install([mr], ["min", "max"])
 
 
 class Al:
@@ -165,4 +166,10 @@ def instances(tier, seed):
     for nb in ((1, 2, 3, 4) if q else (1, 2, 3, 4, 5, 6)):
         out.append(Instance("tile[bins=%d]" % nb, h_split_regions_tile(nb), [A + "AlignmentCollector.split_coverage_regions"],
                             "%d coverage bins with symbolic coverage, symbolic region ends" % nb, weight=3 ** nb, budget_s=900))
+    # a read processed in several sub-regions yields identical records: exactly one survives (shared with C08)
+    from props import c08
+    for n in ((3,) if q else (3, 4)):
+        out.append(Instance("dedup[n=%d]" % n, c08.h_resolve(n, 1, False), ["src.multimap_resolver:MultimapResolver.find_duplicates",
+                                                                      "src.multimap_resolver:MultimapResolver.filter_assignments"],
+                            "%d records of one read, identical records allowed (same isoform set)" % n, weight=500, budget_s=1200))
     return out
